@@ -43,6 +43,14 @@ func budget(tier string, quick, thorough time.Duration) time.Duration {
 	return quick
 }
 
+func sizesUpTo(n int) []int {
+	out := []int{}
+	for i := 0; i <= n; i++ {
+		out = append(out, i)
+	}
+	return out
+}
+
 func finishSS(run *ev.Run) {
 	t := run.Get("transitions")
 	run.Set("traces_validated_against_impl", t)
@@ -72,15 +80,29 @@ func init() {
 	both := []string{drv.BBolt, drv.Badger}
 	register("C06", "model_checking", func(run *ev.Run, tier string) string {
 		runSS(run, tier, []string{"consistency", "names3", "indexes"}, both, "", own("count", "rawkeys", "indexquery", "rebuild"), nil)
-		return "breadth-first search over the real database to a fixpoint (all reachable states) of three alphabets: 'consistency' (two prefix-related collections, shared ids, indexes x and xy, deletes of absent ids, drops and re-creations, in-place and copying updaters, failing operations), 'names3' (three prefix-related collection names) and 'indexes' (fields x, xy, n, n.a); in every new state the raw key set is compared with a canonical rebuild of the model state, Count with the number of documents, and every index with a scan; distinct_nontrivial = distinct raw states"
+		// multi-page collections: drops, index builds and bulk rewrites at every size
+		eng.BulkSweep(&eng.BulkConfig{Backends: both, Sizes: sizesUpTo(map[string]int{"quick": 72, "thorough": 300}[tier]), Pads: []int{0}, IndexSets: [][]string{{"x"}, {"x", "xy"}},
+			Ops: eng.BulkOpsNamed("delete-all", "updatefunc-all-inplace", "update-rewrites-filter-field", "drop-and-recreate", "create-index-on-existing", "create-index-prefix-sibling", "drop-index-x")},
+			run, own("count", "rawkeys", "indexquery", "rebuild"))
+		run.Set("distinct_nontrivial", run.Get("states")+int64(run.DistinctCount("cases")))
+		return "every collection size 0..72 (thorough 300) x index sets x / x+xy x {delete all, in-place update of all, update of the filtered field, drop and re-create, index build on existing documents, drop of an index beside a prefix-named sibling} on both backends with the same three oracles; and breadth-first search over the real database to a fixpoint (all reachable states) of three alphabets: 'consistency' (two prefix-related collections, shared ids, indexes x and xy, deletes of absent ids, drops and re-creations, in-place and copying updaters, failing operations), 'names3' (three prefix-related collection names) and 'indexes' (fields x, xy, n, n.a); in every new state the raw key set is compared with a canonical rebuild of the model state, Count with the number of documents, and every index with a scan; distinct_nontrivial = distinct raw states"
 	})
 	register("C13", "model_checking", func(run *ev.Run, tier string) string {
-		runSS(run, tier, []string{"names3", "names7"}, both, "", own("catalog-coll", "err", "state", "count", "rawkeys", "indexquery", "catalog-index", "error-changed-state", "apply"), nil)
-		return "breadth-first search: create/drop/insert/delete/update/createIndex/dropIndex on every collection name of the alphabet in every reachable state (fixpoint for 3 prefix-related names; depth-bounded for 7 names incl. empty, unicode and names that look like internal prefixes); after every transition ListCollections/HasCollection, every collection's documents, count and indexes, the sentinel errors and the raw key set (vs canonical rebuild, which contains the untouched collections) are compared with the reference model"
+		tags := own("catalog-coll", "err", "state", "count", "rawkeys", "indexquery", "catalog-index", "error-changed-state", "apply")
+		runSS(run, tier, []string{"names3", "names7"}, both, "", tags, nil)
+		// DropCollection / re-creation of a multi-page collection beside a prefix-named sibling collection
+		eng.BulkSweep(&eng.BulkConfig{Backends: both, Sizes: sizesUpTo(map[string]int{"quick": 72, "thorough": 300}[tier]), Pads: []int{0}, IndexSets: [][]string{{}, {"x"}},
+			Ops: eng.BulkOpsNamed("drop-and-recreate", "delete-all")}, run, tags)
+		run.Set("distinct_nontrivial", run.Get("states")+int64(run.DistinctCount("cases")))
+		return "DropCollection + re-creation and Delete(all) at every collection size 0..72 (thorough 300) beside a prefix-named sibling collection; and breadth-first search: create/drop/insert/delete/update/createIndex/dropIndex on every collection name of the alphabet in every reachable state (fixpoint for 3 prefix-related names; depth-bounded for 7 names incl. empty, unicode and names that look like internal prefixes); after every transition ListCollections/HasCollection, every collection's documents, count and indexes, the sentinel errors and the raw key set (vs canonical rebuild, which contains the untouched collections) are compared with the reference model"
 	})
 	register("C14", "model_checking", func(run *ev.Run, tier string) string {
-		runSS(run, tier, []string{"indexes"}, both, "", own("catalog-index", "err", "indexquery", "rawkeys", "find", "error-changed-state"), nil)
-		return "breadth-first search to a fixpoint: CreateIndex/DropIndex on fields x, xy, n, n.a (prefix pair and dotted pair) interleaved with inserts, updates (copying and in-place) and deletes; after every transition HasIndex/ListIndexes, sentinel errors, 48 probe queries served by each index (range, equality, sort-only in both directions) and the raw key set are compared with the reference model"
+		tags := own("catalog-index", "err", "indexquery", "rawkeys", "find", "error-changed-state")
+		runSS(run, tier, []string{"indexes"}, both, "", tags, nil)
+		eng.BulkSweep(&eng.BulkConfig{Backends: both, Sizes: sizesUpTo(map[string]int{"quick": 72, "thorough": 300}[tier]), Pads: []int{0}, IndexSets: [][]string{{"x"}, {"x", "xy"}},
+			Ops: eng.BulkOpsNamed("create-index-on-existing", "create-index-prefix-sibling", "drop-index-x")}, run, tags)
+		run.Set("distinct_nontrivial", run.Get("states")+int64(run.DistinctCount("cases")))
+		return "CreateIndex on existing documents and DropIndex beside a prefix-named sibling index at every collection size 0..72 (thorough 300); and breadth-first search to a fixpoint: CreateIndex/DropIndex on fields x, xy, n, n.a (prefix pair and dotted pair) interleaved with inserts, updates (copying and in-place) and deletes; after every transition HasIndex/ListIndexes, sentinel errors, 48 probe queries served by each index (range, equality, sort-only in both directions) and the raw key set are compared with the reference model"
 	})
 	register("C12", "model_checking", func(run *ev.Run, tier string) string {
 		runSS(run, tier, []string{"ids"}, both, "", own("id", "err", "state", "apply", "error-changed-state", "rawkeys", "count"), nil)
